@@ -232,7 +232,7 @@ func runHeld(h heldHist) (nontrivial bool, violation string, infra string) {
 		case "resp":
 			_ = engine.RunResponse(s, txn(id, false, clk.Now()))
 		case "err":
-			s.OnError(fmt.Sprintf("t%d", id))
+			s.OnError(txName(id))
 		}
 		return false, ""
 	}
